@@ -913,6 +913,37 @@ def stack_overflow_cases(ctx, only=None):
                          "afterwards these links were not checked as in a fresh process (index, events): %r" % (N, kind, k, outcome, bad[:4]))
 
 
+def interpreter_modes(ctx, only=None):
+    """The same in every interpreter mode: vf/scripts/c11_optmode.py (contracts forced with enabled=True) ends a checked call
+    in every way - return, violated precondition / postcondition / invariant, an exception from a condition, KeyboardInterrupt
+    from the body, a constructor that fails, a coroutine method closed at its suspension point - and then probes the same
+    function / object twice (all contracts hold; a contract is falsy). Run in child interpreters: default, -O, -OO. The probes
+    must be checked as in a fresh process: fixed event lists, whatever came before."""
+    from vf import modes
+
+    first = {"returns": ["ret", 1], "pre-violated": ["violation"], "post-violated": ["violation"], "inv-violated": ["violation"],
+             "pre-raises": ["KeyError"], "post-raises": ["KeyError"], "inv-raises": ["KeyError"],
+             "body-raises-BaseException": ["KeyboardInterrupt"], "ctor-inv-violated": ["violation"], "ctor-inv-raises": ["KeyError"],
+             "async-closed": ["closed"]}
+    probes = {"function": [["ret", 1], ["pre", "body:f", "post"], ["violation"], ["pre", "body:f", "post"]],
+              "object": [["ret", 1], ["inv", "pre", "body:m", "post", "inv"], ["violation"], ["inv"]]}
+    names = (["function/" + n for n in list(first)[:8] if not n.startswith("inv")] + ["object/" + n for n in first])
+    for flags in modes.MODES:
+        mode = modes.mode_name(flags)
+        if only is not None and only != mode:
+            continue
+        got = modes.run_script("c11_optmode.py", flags)
+        for label in names:
+            kind, fault = label.split("/")
+            want = [first[fault]] + probes[kind]
+            ctx.case(["interpreter-mode", mode, label], bool(flags), sample={"directed": "interpreter mode %s: %s, then two probes" % (mode, label)})
+            ctx.count("directed:interpreter-modes")
+            if got.get(label) != want:
+                ctx.fail("interpreter-mode|%s|%s" % (mode, kind), {"interpreter_mode": mode},
+                         "python %s vf/scripts/c11_optmode.py, %s: expected [outcome, probe outcome, probe events, outcome of the probe with "
+                         "a falsy contract, its events] = %r, got %r" % (" ".join(flags), label, want, got.get(label)))
+
+
 def run(ctx, tier, seed, shard, nshards):
     import sys
 
@@ -921,6 +952,7 @@ def run(ctx, tier, seed, shard, nshards):
     if shard == 0:
         nested_family(ctx)
         stack_overflow_cases(ctx)
+        interpreter_modes(ctx)
 
     @given(st_case())
     def test(case):
@@ -932,6 +964,11 @@ def run(ctx, tier, seed, shard, nshards):
 
 
 def replay(ctx, case):
+    if case.get("interpreter_mode"):
+        before = ctx.evaluations
+        interpreter_modes(ctx, only=case["interpreter_mode"])
+        ctx.evaluations = before + 1
+        return
     if case.get("stack_overflow"):
         before = ctx.evaluations
         stack_overflow_cases(ctx, only=case["stack_overflow"])
